@@ -114,6 +114,7 @@ Definition run_case (d0 : ds) (prog : list tstep) (expected : list obs) : bool :
   list_eqb obs_eqb (snd (tree_run [Some d0] prog)) expected.
 
 (* generate_random_split with numpy's arrangement for (seed, n) supplied by the harness *)
-Definition split_case (perm : list nat) (n : nat) (seed : Z) (tr vr : float) (include_test : bool)
+Definition split_case (perm : list Z) (n : Z) (seed : Z) (tr vr : float) (include_test : bool)
     (expected : option (list Z)) : bool :=
-  opt_eqb (list_eqb Z.eqb) (generate_random_split (fun _ _ => perm) n seed tr vr include_test) expected.
+  opt_eqb (list_eqb Z.eqb)
+    (generate_random_split (fun _ _ => map Z.to_nat perm) (Z.to_nat n) seed tr vr include_test) expected.
